@@ -44,8 +44,26 @@ var c10Entries = []string{"ReadFrom", "FromBuffer", "FromUnsafeBytes", "Unmarsha
 // decode runs one entry point on data. For the zero-copy entry points the bytes
 // live flush against a PROT_NONE page (an over-read or under-read faults and is
 // reported as a panic) and are read-only.
+// usedReceiver: when set (by the property, for a whole case) decoding goes into a bitmap that has been used
+// before - it holds other values, has been serialized and has answered Validate()==nil already.
+var usedReceiver bool
+
+func newReceiver() *roaring.Bitmap {
+	if !usedReceiver {
+		return roaring.New()
+	}
+	r := roaring.BitmapOf(3, 4, 5, 70000, 1<<31)
+	r.AddRange(200000, 200900)
+	r.RunOptimize()
+	r.ToBytes()
+	if err := r.Validate(); err != nil {
+		panic("harness: receiver does not validate: " + err.Error())
+	}
+	return r
+}
+
 func decode(entry int, data []byte, atEnd bool) (res decodeResult, g *inst.Guard) {
-	res.b = roaring.New()
+	res.b = newReceiver()
 	switch entry {
 	case eFromBuffer, eFromUnsafeBytes, eFrozenView:
 		g = inst.NewGuard(data, atEnd)
@@ -639,6 +657,11 @@ func mustReadFromCheck(t *rapid.T, what string, data []byte) {
 }
 
 func propC10(t *rapid.T) {
+	usedReceiver = rapid.IntRange(0, 2).Draw(t, "usedReceiver") == 1
+	defer func() { usedReceiver = false }()
+	if usedReceiver {
+		inst.Count("C10", "decoding-into-used-receivers")
+	}
 	bs := gen.Bitmap(t, "S", gen.KindsAnyLegal, false)
 	if len(bs.Chunks) > 10 {
 		bs.Chunks, bs.Shapes = bs.Chunks[:10], bs.Shapes[:10]
